@@ -17,7 +17,7 @@ JSON_PALETTE = [
     "2031-07-13T05:46:+5Z", "2031-07-13T 5:46:45Z", "2031-07-13T05: 6:45Z", "2031-07-13T05:46:5\nZ", "2_31-07-13T05:46:45Z", "2031-07-13T05:46:4_Z",
     "2031-07-13T05:46:\t5Z", "2031- 7-13T05:46:45Z", "2031-07- 3T05:46:45Z", "+031-07-13T05:46:45Z", "2031-07-13T-5:46:45Z", "2031-07-13T05:46:45z",
     "2031-07-13t05:46:45Z", "2031-07-13T05:46:45\u200bZ", "2031/07/13T05:46:45Z", "2031-07-13T05.46.45Z", "2031-07-13T24:00:00Z", "2031-07-13T05:60:00Z",
-    HK, HK.upper(), HK[:-1], HK + "a", HK[:-2], " " + HK, HK + "\n", "0x" + HK[2:], SIG, SIG[:-2], "ab", "abc", "zz",
+    HK, HK.upper(), "Ab" + HK[2:], HK[:-1] + "B", "eF" * 64, "ef" * 63 + "eF", "04aB", "AB", HK[:-1], HK + "a", HK[:-2], " " + HK, HK + "\n", "0x" + HK[2:], SIG, SIG[:-2], "ab", "abc", "zz",
     [], {}, [HK], [HK, HK], [HK, HK2], [HK.upper()], [1], [None], [[]], [{}], {"a": 1}, {"": None},
     {"pubkeys": [], "threshold": 1}, {"pubkeys": [HK], "threshold": 1}, {"pubkeys": [HK], "threshold": 0},
     {"pubkeys": [HK, HK], "threshold": 1}, {"pubkeys": [HK], "threshold": 1, "x": 1}, {"threshold": 1}, {"pubkeys": [HK]},
